@@ -1126,9 +1126,9 @@ impl DNSPkt {
         if trunc {
             // Update the header with the fact we truncated this.
             ret[2] |= 0b0000_0010;
-            ret.splice(6..7, ancount.to_be_bytes().iter().copied());
-            ret.splice(8..9, nscount.to_be_bytes().iter().copied());
-            ret.splice(10..11, adcount.to_be_bytes().iter().copied());
+            ret.splice(6..8, ancount.to_be_bytes().iter().copied());
+            ret.splice(8..10, nscount.to_be_bytes().iter().copied());
+            ret.splice(10..12, adcount.to_be_bytes().iter().copied());
         }
 
         ret
